@@ -421,6 +421,9 @@ def run(chk):
     # ... with the key algebra the lookup is built on: a command-line key (short OR long) equals exactly the
     # arguments that carry it - otherwise one of the two spellings of an argument is not an exact match (C05-R3)
     c05.r3(chk, prog, rule='R4')
+    # ... and with the key-specification parser: the short and the long key of a two-part specification are the
+    # parts that were written (C05-R7)
+    c05.r7_two_part_spec(chk, prog, rule='R4')
     r5_one_shot_flags(chk, prog)
     chk.rule('R6', "tokeniser splits --key=value at the first '='", 1)
     r6_key_value_split(chk, prog)
